@@ -93,6 +93,7 @@ def tasks(tier):
         ts.append(("job %s" % "".join("T" if p else "F" for p in pat), "run_job", dict(pattern=list(pat))))
     ts.append(("job without file", "run_job", dict(pattern=[True, True, True, True], filename=None)))
     ts.append(("job mesh source", "run_job_mesh", {}))
+    ts.append(("job default data flags", "run_job_defaults", {}))
     ts.append(("default data", "run_default_data", {}))
     ts.append(("tools.save", "run_save", {}))
     ts.append(("mesh write/read", "run_mesh_io", {}))
@@ -262,6 +263,51 @@ def run_job_mesh(col):
         want = "global" if variant == "x0" else "item"
         col.add("C20.O1", "job mesh source (%s)" % variant, "the mesh written to the file is the global field's (x0) when one is given, else the first item's field's",
                 len(hdr) == 1 and hdr[0][1] == "POINTS-" + want, "mechanics/_job.py Job.evaluate: header %s" % (hdr[:1],))
+        finish_info(col, it)
+
+
+def run_job_defaults(col):
+    """point_data_default / cell_data_default: each switches exactly its own set of documented default quantities"""
+    DEF_CELL = {"Principal Values of Logarithmic Strain", "Logarithmic Strain", "Deformation Gradient"}
+    for pflag, cflag in itertools.product((True, False), repeat=2):
+        it = new_interp()
+        it.lazy_generators = True
+        store = Store()
+        it.externals.update(meshio_summary(store))
+        log = store.events
+        fc, n, dof0, dof1, ext0, regs = scenario.make_problem(it)
+
+        class Res:
+            pass
+
+        def newton(interp, fn, args, kwargs):
+            r = Res()
+            r.success = True
+            r.x = interp.call_method(fc, "copy", [])
+            r.fnorms = [0]
+            return r
+
+        it.call_hooks[("felupe.tools._newton", "newtonrhapson")] = newton
+        it.call_hooks[("felupe.dof._tools", "partition")] = lambda interp, fn, args, kwargs: (dof0, dof1)
+        it.call_hooks[("felupe.dof._tools", "apply")] = lambda interp, fn, args, kwargs: ext0
+        for fname in ("displacement", "log_strain_principal", "log_strain", "deformation_gradient"):
+            it.call_hooks[("felupe.mechanics._job", fname)] = (lambda fname: lambda interp, fn, args, kwargs: "DEFAULT:" + fname)(fname)
+        Step = it.get("felupe.mechanics._step:Step")
+        Job = it.get("felupe.mechanics._job:Job")
+        itemA = scenario.FakeItem([], "A", fc, n)
+
+        class MeshStub:
+            points = "POINTS"
+            cells = "CELLS"
+
+        steps = [it.call(Step, [], dict(items=[itemA], ramp={itemA: [sym("s0")]}, boundaries={}))]
+        job = it.call(Job, [steps], {})
+        it.call_method(job, "evaluate", [], dict(verbose=False, filename="r.xdmf", mesh=MeshStub(), point_data_default=pflag, cell_data_default=cflag))
+        frames = [e for e in log if e[0] == "frame"]
+        okk = len(frames) == 1 and set(frames[0][2]) == ({"Displacement"} if pflag else set()) and set(frames[0][3]) == (DEF_CELL if cflag else set())
+        col.add("C20.O2", "job default data point=%s cell=%s" % (pflag, cflag),
+                "point_data_default switches the default point data ('Displacement'), cell_data_default the documented default cell quantities -- each its own",
+                okk, "mechanics/_job.py Job.evaluate: point keys %s, cell keys %s" % (sorted(frames[0][2]) if frames else None, sorted(frames[0][3]) if frames else None))
         finish_info(col, it)
 
 
